@@ -346,6 +346,7 @@ func Gen(w *bufio.Writer, seed uint64, tier string, prop string) {
 		}
 		fmt.Fprintf(w, "PS realsign %d %s %s\n", p.Style, hx.Hex(Build(r, p)), []string{"p256", "rsa", "p384"}[i%3])
 	}
+	genLF(w, r, tier, prop) // signed, then line endings converted (lf.go)
 }
 
 func classify(err error) string {
